@@ -3,6 +3,6 @@ Require Import GeosV.Lib.KernelDefs GeosV.Lib.GenPreludeF GeosV.C16.Defs GeosV.C
 Require Extraction.
 Require Import ExtrOcamlBasic.
 Extraction "xc16.ml" delaunay_clauses check_delaunay check_degenerate check_edges check_disjoint failed
-  local_violations global_violations band_blind cdt_clauses cdt_multi_clauses check_cdt check_cdt1 owner_count voronoi_clauses check_voronoi assign_sites
+  local_violations global_violations band_blind cdt_clauses cdt_multi_clauses check_cdt check_cdt1 owner_count voronoi_clauses check_voronoi check_voronoi_edges assign_sites
   same_pts diagram_env robust_b64 nonrobust_b64 det_b64 fpt_of_bits robust_grid band_quads exact_loc dyadic_of min_exp scale_dy
   hull sort_pts incircle geos_incircle geos_band polygons_valid of_bits to_bits tri_ccw corners.
